@@ -8,7 +8,7 @@ from ..astx import C, N, attr, lam
 from ..core import REPO
 from ..typedmodel import Model
 
-N_CASES = {"quick": 600, "thorough": 20000}
+N_CASES = {"quick": 600, "thorough": 500000}
 TIME_BUDGET = {"quick": 60, "thorough": 270}
 META = {
     "rule": "generated class models (3 classes x 4 scalar methods with 0-4 parameters, every prefix required / rest defaulted, defaults of "
